@@ -65,6 +65,9 @@ def _conv(target):
             "keep_dtype or all(bo_order(result, f) == 3 or %s(result, f) for f in bo_fields(array))" % target,
         "values-preserved-unless-keep_dtype":
             "keep_dtype or all(bo_value(result, f) == bo_value(old(array), f) for f in bo_fields(array))",
+        "keep_dtype-leaves-the-declared-byte-order-alone (only the bytes are swapped)":
+            "not keep_dtype or all((bo_order(result, f) == 3) == (bo_order(old(array), f) == 3)"
+            " and bo_big(result, f) == bo_big(old(array), f) for f in bo_fields(array))",
         "field-structure-kept": "bo_names(result) == bo_names(old(array))",
         "idempotent:already-converted-input-is-returned-bit-identical":
             "not all(bo_order(old(array), f) == 3 or %s(old(array), f) for f in bo_fields(array))"
